@@ -116,7 +116,100 @@ def _types_tested(test: ast.AST) -> list[str]:
     return out
 
 
+def _flat_branches(fn_node: ast.FunctionDef, cap: int = 120) -> list[tuple[list[str], ast.Return, ast.If]] | None:
+    """The dispatch of the function as a FLAT decision list, whatever its nesting: every path through the type tests that ends in a
+    return becomes one synthetic `if isinstance(obj, <innermost type>): <assignments on the path>; return <value>`.
+
+    Nested dispatch (`if isinstance(obj, dict): if isinstance(obj, OrderedDict): p = ...  elif ...: p = ...; return (m, tp, p)`) and merged
+    arms whose behaviour is selected by a flag computed from the type (`unordered = isinstance(obj, (set, frozenset))`) are thereby
+    read like the plain if-chain; merged arms are split per type with the flag evaluated for that type.  None: not enumerable."""
+    import copy
+
+    paths: list[tuple[list[tuple[ast.AST, bool]], list[ast.stmt], ast.Return]] = []
+
+    def walk(stmts: list[ast.stmt], conds: list[tuple[ast.AST, bool]], assigns: list[ast.stmt]) -> bool:
+        for i, st in enumerate(stmts):
+            if len(paths) > cap:
+                return False
+            if isinstance(st, ast.Return):
+                paths.append((conds, assigns, st))
+                return True
+            if isinstance(st, ast.Raise):
+                return True
+            if isinstance(st, ast.If) and _types_tested(st.test):
+                rest = stmts[i + 1:]
+                ok1 = walk([*st.body, *rest], [*conds, (st.test, True)], list(assigns))
+                ok2 = walk([*st.orelse, *rest], [*conds, (st.test, False)], list(assigns))
+                return ok1 and ok2
+            if isinstance(st, ast.If) and not any(isinstance(x, (ast.Return, ast.Raise)) or (isinstance(x, ast.If) and _types_tested(x.test)) for x in ast.walk(st) if x is not st):
+                assigns = [*assigns, st]  # a local decision that neither dispatches nor leaves (`if obj.dtype.hasobject: data = ... else: data = ...`): kept whole
+                continue
+            if isinstance(st, ast.If):
+                # a non-type test (`if "numpy" in sys.modules`, `if fallback_to_pickle`): both arms, the test itself is not a dispatch step
+                rest = stmts[i + 1:]
+                ok1 = walk([*st.body, *rest], conds, list(assigns))
+                ok2 = walk([*st.orelse, *rest], conds, list(assigns))
+                return ok1 and ok2
+            if isinstance(st, ast.Try) and not any(isinstance(x, ast.Return) or (isinstance(x, ast.If) and _types_tested(x.test)) for x in ast.walk(st)):
+                assigns = [*assigns, st]  # computes a local (the type tag) - no dispatch, no exit
+                continue
+            if isinstance(st, ast.Try):
+                rest = stmts[i + 1:]
+                ok1 = walk([*st.body, *st.orelse, *rest], conds, list(assigns))
+                ok2 = all(walk([*h.body, *rest], conds, list(assigns)) for h in st.handlers)
+                return ok1 and ok2
+            assigns = [*assigns, st]
+        return True
+
+    if not walk(fn_node.body, [], []) or not paths:
+        return None
+    out: list[tuple[list[str], ast.Return, ast.If]] = []
+    seen_keys: set[str] = set()
+    for conds, assigns, ret in paths:
+        pos = [t for t, pol in conds if pol]
+        if not pos or ret.value is None:
+            continue
+        types = _types_tested(pos[-1])
+        excluded = {x for t, pol in conds if not pol for x in _types_tested(t)}
+        types = [t for t in types if t not in excluded] or types
+        # flags computed from the type on this path: name -> the isinstance test
+        flags = {a.targets[0].id: a.value for a in assigns if isinstance(a, ast.Assign) and len(a.targets) == 1 and isinstance(a.targets[0], ast.Name) and isinstance(a.value, ast.Call)
+                 and dotted(a.value.func) == "isinstance"}
+        groups = [[t] for t in types] if flags and len(types) > 1 else [types]
+        for g in groups:
+            body = [copy.deepcopy(a) for a in assigns if not (isinstance(a, ast.Assign) and len(a.targets) == 1 and isinstance(a.targets[0], ast.Name) and a.targets[0].id in flags)]
+            body = [ast.copy_location(ast.Assign(targets=[b.target], value=b.value), b) if isinstance(b, ast.AnnAssign) and b.value is not None else b for b in body]  # `p: Any = v` is `p = v`
+            r2 = copy.deepcopy(ret)
+            if flags and len(g) == 1:
+                consts = {nm: (g[0] in _types_tested(v) or SUBCLASS_OF.get(g[0]) in _types_tested(v)) for nm, v in flags.items()}
+
+                class Sub(ast.NodeTransformer):
+                    def visit_Name(self, node: ast.Name):  # noqa: N802
+                        if isinstance(node.ctx, ast.Load) and node.id in consts:
+                            return ast.copy_location(ast.Constant(value=consts[node.id]), node)
+                        return node
+
+                r2 = Sub().visit(r2)
+                body = [Sub().visit(b) for b in body]
+            key = ",".join(g) + "|" + norm(r2) + "|" + ";".join(norm(b) for b in body if isinstance(b, ast.Assign))
+            if key in seen_keys:
+                continue
+            seen_keys.add(key)
+            test = ast.Call(func=ast.Name(id="isinstance", ctx=ast.Load()), args=[ast.Name(id="obj", ctx=ast.Load()), ast.Tuple(elts=[ast.Name(id=t, ctx=ast.Load()) for t in g], ctx=ast.Load())], keywords=[])
+            syn = ast.If(test=test, body=[*body, r2], orelse=[])
+            ast.copy_location(syn, ret)
+            ast.fix_missing_locations(syn)
+            for x in ast.walk(syn):
+                if not hasattr(x, "lineno"):
+                    x.lineno, x.col_offset = ret.lineno, ret.col_offset  # type: ignore[attr-defined]
+            out.append((g, r2, syn))
+    return out or None
+
+
 def _branches(fn_node: ast.FunctionDef) -> list[tuple[list[str], ast.Return, ast.If]]:
+    flat = _flat_branches(fn_node)
+    if flat is not None:
+        return flat
     out: list[tuple[list[str], ast.Return, ast.If]] = []
 
     def visit(body: list[ast.stmt]) -> None:
